@@ -45,8 +45,12 @@ class WFQ(Scheduler):
         """
         weight_sum = 0.0
         now = self.env.now
-        for i in self.active_set:
-            weight_sum += self.weights[i]
+        # summed in the (fixed) order of the weight table: the iteration order of
+        # a set of string ids, and with it the rounding of the sum, would depend
+        # on the interpreter's hash seed
+        for i in self.weights:
+            if i in self.active_set:
+                weight_sum += self.weights[i]
         self.vtime += (now - self.last_time) / weight_sum
 
     def reset_vtime(self):
